@@ -65,6 +65,26 @@ func (ca *CA) Leaf(notBefore, notAfter time.Time, names ...string) (tls.Certific
 	return tls.Certificate{Certificate: [][]byte{der}, PrivateKey: key}, nil
 }
 
+// LeafSAN issues a server certificate with exactly the given subject alternative names: no sorting of
+// strings into DNS names and IP addresses is done (a dNSName may spell an IP literal).
+func (ca *CA) LeafSAN(notBefore, notAfter time.Time, cn string, dns []string, ips []net.IP) (tls.Certificate, error) {
+	key, err := ecdsa.GenerateKey(elliptic.P256(), rand.Reader)
+	if err != nil {
+		return tls.Certificate{}, err
+	}
+	tmpl := &x509.Certificate{
+		SerialNumber: big.NewInt(time.Now().UnixNano()), Subject: pkix.Name{CommonName: cn},
+		NotBefore: notBefore, NotAfter: notAfter,
+		KeyUsage: x509.KeyUsageDigitalSignature, ExtKeyUsage: []x509.ExtKeyUsage{x509.ExtKeyUsageServerAuth},
+		DNSNames: dns, IPAddresses: ips,
+	}
+	der, err := x509.CreateCertificate(rand.Reader, tmpl, ca.Cert, &key.PublicKey, ca.Key)
+	if err != nil {
+		return tls.Certificate{}, err
+	}
+	return tls.Certificate{Certificate: [][]byte{der}, PrivateKey: key}, nil
+}
+
 // ValidLeaf issues a currently valid certificate.
 func (ca *CA) ValidLeaf(names ...string) (tls.Certificate, error) {
 	return ca.Leaf(time.Now().Add(-time.Hour), time.Now().Add(12*time.Hour), names...)
